@@ -392,6 +392,21 @@ def r8_frontend_keeps_positions(ctx, rule="C12.R8"):
     R.check(every, rule, "ws:every-slot-yields-an-entry", "every way round the slot loop appends an entry", "the async client's batch_request can go round its slot loop without appending an entry: the result list gets shorter and every later entry moves to the previous position", where(nx))
     twice = [c for c in pushes if (b.reach_from(c.bb, avoid={nx.bb}) - {c.bb}) & pb]
     R.check(not twice, rule, "ws:one-entry-per-slot", "no way round the loop appends twice", "a slot can append two entries", where(twice[0]) if twice else None)
+    # ... and every appended entry is counted once: the success / failure counters are what into_ok() / ok() trust
+    w = {bb: 1 for bb in pb}
+    incs = 0
+    for bi, blk in enumerate(b.blocks):
+        if blk.get("cleanup") or bi not in b.reachable or not (b.dominates(some_t, bi) and b.can_reach(bi, nx.bb)):
+            continue
+        for st in blk["st"]:
+            if st["s"] == "assign" and st["rv"]["k"] == "bin" and st["rv"]["op"] in ("Add", "AddWithOverflow", "AddUnchecked"):
+                k = op_const(st["rv"]["b"]) or op_const(st["rv"]["a"])
+                if k is not None and str(k.get("int")) == "1":
+                    w[bi] = w.get(bi, 0) - 1
+                    incs += 1
+    pc = flow.path_counts(b, some_t, w, stop={nx.bb})
+    R.paths_enumerated += 1
+    R.check(incs >= 1 and pc == (0, 0), rule, "ws:every-entry-counted-once", "every way round the slot loop counts the entry it appends exactly once", "the async client's batch_request can append an entry without counting it (or count without appending) (appends minus counter increments along the ways round the loop: %s): num_failed_calls()/into_ok() then disagree with the entries - a failed entry is dropped and later values shift" % (pc,), where(nx))
 
 
 
@@ -440,13 +455,39 @@ def ratomic_ids_reserved_atomically(ctx):
 
 
 
+def r10_ok_views_agree_with_the_entries(ctx):
+    """BatchResponse::into_ok / ok hand out the plain values only when no entry failed: both are evaluated as decision
+    tables over concrete entry lists ([Ok,Ok] -> Ok; [Ok,Err], [Err,Ok], [Err,Err] -> Err) with consistent counters."""
+    from ..interp import Interp, Enum, Struct, Ref, Sym, ListVal, Unsupported
+    F, R = ctx.F, ctx.R
+    OKV = lambda v: Enum("std::result::Result", 0, "Ok", [v])
+    ERRV = lambda v: Enum("std::result::Result", 1, "Err", [v])
+    adt = F.adt("jsonrpsee_core::client::BatchResponse")
+    if adt is None:
+        raise AnchorLost("ADT BatchResponse")
+    fields = [f["n"] for f in adt["variants"][0]["fields"]]
+    for nm, by_ref in (("into_ok", False), ("ok", True)):
+        b = F.one(r"^jsonrpsee_core::client::BatchResponse::<'a, R>::%s$" % nm)
+        R.fn(b)
+        for label, entries in (("all-ok", [OKV(Sym("a")), OKV(Sym("b"))]), ("first-failed", [ERRV(Sym("e")), OKV(Sym("b"))]), ("last-failed", [OKV(Sym("a")), ERRV(Sym("e"))]), ("all-failed", [ERRV(Sym("e")), ERRV(Sym("f"))])):
+            nfail = sum(1 for e in entries if e.vname == "Err")
+            vals = {"successful_calls": len(entries) - nfail, "failed_calls": nfail, "responses": ListVal(entries)}
+            me = Struct("BatchResponse", [vals.get(f, Sym(f)) for f in fields], fields)
+            try:
+                got = Interp(F, default_sym=True, opaque_calls=True).run(b, [Ref([me]) if by_ref else me])
+            except Unsupported as e:
+                raise AnchorLost("BatchResponse::%s is not a plain decision over its entries / counters any more (%s)" % (nm, e))
+            want = "Ok" if nfail == 0 else "Err"
+            R.check(isinstance(got, Enum) and got.vname == want, "C12.R10", "%s:%s" % (nm, label), "BatchResponse::%s with %s -> %s" % (nm, label, want), "BatchResponse::%s with entries %s yields %r (expected %s): a batch with a failed or unanswered entry hands out a shorter, shifted list of plain values" % (nm, label, got, want), "%s:%d" % (b.file, b.lo))
+
+
 def rkeys_manager_keys_not_derived(ctx):
     """a pending batch is found through the ids of the reply at hand, never by scanning for `the oldest` / `the only` one"""
     from .common import manager_keys_not_derived
     manager_keys_not_derived(ctx, "C12.KEYS")
 
 
-RULES = [rkeys_manager_keys_not_derived, ratomic_ids_reserved_atomically, r1_sized_by_request, r2_slot_index, r3_range_and_zip, r4_counts, r5_allocator, r6_exact_id_number, r7_batch_key_is_whole_range, r8_frontend_keeps_positions, r9_slot_vector_travels_untouched] + BORROWED
+RULES = [r10_ok_views_agree_with_the_entries, rkeys_manager_keys_not_derived, ratomic_ids_reserved_atomically, r1_sized_by_request, r2_slot_index, r3_range_and_zip, r4_counts, r5_allocator, r6_exact_id_number, r7_batch_key_is_whole_range, r8_frontend_keeps_positions, r9_slot_vector_travels_untouched] + BORROWED
 
 LEVEL_TEXT = (
     "Structural necessary conditions for positional batch results, decided from the type-checked program for both "
